@@ -10,10 +10,10 @@ git -C /repo worktree add -q --detach "$WT" HEAD || exit 9
 cp "$SRC/demo_test.go" "$WT/$PKG/zz_seed_demo_test.go"
 cd "$WT"
 r=0
-go test -vet=off -count=1 -timeout 10m -run "$RX" ./$PKG/ >/tmp/confirm.$$.a 2>&1; A=$?
+go test -vet=off -count=1 ${EXTRA_FLAGS:-} -timeout 10m -run "$RX" ./$PKG/ >/tmp/confirm.$$.a 2>&1; A=$?
 if ! git apply "$SRC/patch.diff"; then echo "PATCH DOES NOT APPLY"; r=8; fi
 go build ./... >/dev/null 2>&1; B=$?
-go test -vet=off -count=1 -timeout 10m -run "$RX" ./$PKG/ >/tmp/confirm.$$.b 2>&1; C=$?
+go test -vet=off -count=1 ${EXTRA_FLAGS:-} -timeout 10m -run "$RX" ./$PKG/ >/tmp/confirm.$$.b 2>&1; C=$?
 rm -f "$WT/$PKG/zz_seed_demo_test.go"
 go test -vet=off -count=1 -timeout 25m ./... >/tmp/confirm.$$.c 2>&1; D=$?
 echo "demo without patch: exit $A (want 0); build with patch: $B (want 0); demo with patch: exit $C (want != 0); suite with patch: exit $D (want 0)"
